@@ -100,7 +100,7 @@ def check(ctx):
                  "switch (x) { case 1 { } }", "return x;", "ctrl @ x q, r;", "pow(2) @ h q;", "f();", "x = (1);", "(x) = 1;",
                  "[0:1];", "{1, 2};", "a ++ b;", "box { }", "sizeof(a);", "defcalgrammar \"openpulse\";", "include \"stdgates.inc\";"]
     extra += first_tok
-    cand = sorted({s for v in pool.values() for s in list(v)[:40]} | set(extra))
+    cand = sorted({s for v in pool.values() for s in sorted(v)[:40]} | set(extra))
     # statements that parse alone, error-free, as exactly one statement
     alone = C.run_impl(ctx, "tree", [G.enc(s) for s in cand], tag="a")
     good = []
